@@ -82,6 +82,7 @@ def scenarios(tier):
                 "threads": {"T1": [("dii", "S2", "badsize")], "T2": [("store", "p1", "S1", None)]}, "pids": ("p1", "p2")})
     out.append({"name": "delete(p2)||store(p1,S1) from p2=S2 [depth 1 width 1]", "init": "p2S2", "p": "1x1",
                 "threads": {"T1": [("delete", "p2")], "T2": [("store", "p1", "S1", None)]}, "pids": ("p1", "p2")})
+    out += line_level_scenarios(tier, out)
     if tier == "thorough":
         for a, b, st in [("s2A", "d1", "p1A"), ("t1A", "d1", "empty"), ("s1A", "s2A", "empty"), ("s1A", "s1B", "empty")]:
             out.append({"name": "%s||%s from %s (pristine directories)" % (a, b, st), "init": st, "pristine": True, "time_cap": 400,
@@ -101,6 +102,57 @@ def scenarios(tier):
     return out
 
 
+def _l_state(a, b):
+    names = (a, b)
+    if "d2" in names:
+        return "p1A,p2A"
+    if "d1" in names:
+        return "p1A"
+    if "xA" in names or "vA" in names:
+        return "Aunref"
+    return "empty"
+
+
+# calls that share no pid, no cid and no file: independent for engine T, but they run on ONE store instance, so anything
+# the package keeps in memory between two lines (a cached buffer, a lazily filled table) is shared between them
+L_EXTRA = [
+    ("store(p1,A)||store(p2,B) from empty", "empty", ("store", "p1", "A", None), ("store", "p2", "B", None)),
+    ("store(p1,L)||store(p2,K) from empty", "empty", ("store", "p1", "L", None), ("store", "p2", "K", None)),
+    ("store(p1,L)||store(p2,A,+sha3_256) from empty", "empty", ("store", "p1", "L", None), ("store", "p2", "A", "add:sha3_256")),
+    ("store(p1,A,ok md5)||store(p2,B,bad sha1) from empty", "empty", ("store", "p1", "A", "ok:md5"), ("store", "p2", "B", "badck:sha1")),
+    ("delete(p1)||store(p3,L) from p1A,p2B", "p1A,p2B", ("delete", "p1"), ("store", "p3", "L", None)),
+    ("dii(A wrong)||store(p2,K) from Aunref", "Aunref", ("dii", "A", "badsize"), ("store", "p2", "K", None)),
+]
+
+
+def line_level_scenarios(tier, base):
+    """Engine L (every source line of the package as a pre-emption point, one pre-emption): the quick pairs from one
+    starting state each plus pairs of calls that are independent at file level; thorough: every two-thread scenario of
+    the menu, and the quick selection again at BYTECODE granularity."""
+    sel = []
+    for a, b in QUICK_PAIRS:
+        a, b = sorted((a, b))
+        st = _l_state(a, b)
+        sel.append({"name": "%s||%s from %s" % (a, b, st), "init": st,
+                    "threads": {"T1": [MENU[a]], "T2": [MENU[b]]}, "pids": ("p1", "p2")})
+    for name, st, o1, o2 in L_EXTRA:
+        sel.append({"name": name, "init": st, "threads": {"T1": [o1], "T2": [o2]}, "pids": ("p1", "p2", "p3")})
+    out = []
+    if tier == "quick":
+        for sp in sel:
+            out += tscen.line_level(sp, "line", 2)
+        return out
+    seen = set()
+    for sp in list(base) + sel:
+        if len(sp["threads"]) != 2 or sp.get("faults") or sp["name"] in seen or any(len(v) != 1 for v in sp["threads"].values()):
+            continue
+        seen.add(sp["name"])
+        out += tscen.line_level(sp, "line", 2)
+    for sp in sel:
+        out += tscen.line_level(sp, "opcode", 8)
+    return out
+
+
 def main(tier):
     rep = common.Report("C07", tier, "model_checking")
     specs = scenarios(tier)
@@ -113,6 +165,8 @@ def main(tier):
         "store whose pid another thread stores",
         "2 threads: exhaustive up to commutation of independent steps (state caching + verified footprints); "
         "3 threads: pre-emption bound 2",
+        "line level (engine L): every execution of two calls with at most ONE pre-emption, the pre-emption placed at every "
+        "source line of the package (thorough: every bytecode) and every visible operation of either thread",
     ]
     return finish_t(rep, results)
 
